@@ -180,10 +180,10 @@ Proof. exact HoistProofs.shift_vars_covers_owners. Qed.
 Print Assumptions shift_vars_covers_owners.
 
 (* the IR traversal (on which hoisting, shift_vars, CSE and hashing rely) visits the expression of
-   every quantifier that has one -- except the percentage, which is the recorded finding
-   C03:hoisting:verdict-differs:percentage-quantifier (lists regenerated from ir/mod.rs, ir/dfs.rs) *)
+   every quantifier that has one (lists regenerated from ir/mod.rs, ir/dfs.rs; the percentage was
+   skipped until 21a3d45e) *)
 Theorem quantifier_exprs_traversed :
-  forall v, In v quantifier_expr_variants -> In v quantifier_traversed_variants \/ v = "Percentage"%string.
+  forall v, In v quantifier_expr_variants -> In v quantifier_traversed_variants.
 Proof. exact HoistProofs.quantifier_exprs_traversed. Qed.
 Print Assumptions quantifier_exprs_traversed.
 
